@@ -13,6 +13,7 @@
 #include "engine.hpp"
 #include "sched.hpp"
 #include "trap.hpp"
+#include "armsim.hpp"
 
 namespace jv {
 
@@ -48,6 +49,16 @@ std::string flavour() {
 #endif
 }
 std::string replica_dir() { const char* e = getenv("JV_BUILD_DIR"); return std::string(e ? e : "") + "/" + flavour(); }
+
+static std::string g_arm_note;
+// All replica sets are loaded through here: the dlopen-ed builds plus the interpreted ARM back ends (C03).
+static bool load_all(Replicas& reps, std::string& err) {
+    if (!reps.load(replica_dir(), err)) return false;
+    const char* repo = getenv("JV_REPO");
+    g_arm_note = arm_add_pseudo_replicas(reps, repo ? repo : "/repo");
+    if (getenv("JV_DEBUG")) fprintf(stderr, "arm: %s\n", g_arm_note.c_str());
+    return true;
+}
 
 RunResult execute_plan(const Plan& plan, Replicas& reps, const std::string& rep_label, int view, bool verbose, const std::string& focus, bool allow_known) {
     RunEnv env; env.reps = &reps; env.rep = reps.by_label(rep_label); env.view = view; env.verbose = verbose; env.focus = focus; env.allow_known = allow_known;
@@ -181,8 +192,10 @@ static RunResult run_fixed(const Plan& plan, Replicas& reps, const std::string& 
         return a;
     }
     std::vector<RunResult> rs; std::vector<std::string> tags;
-    for (auto& r : p.reps) for (int v : p.views) { rs.push_back(execute_plan(plan, reps, r, v, verbose, focus, false)); tags.push_back(r + (v ? "/C++" : "/C")); }
-    RunResult out = rs[0];
+    UnitPick pe = p; pe.reps.clear(); uint64_t arm_skipped = 0;
+    for (auto& r : p.reps) { if (!reps.by_label(r) && r.compare(0, 3, "ARM") == 0) { arm_skipped++; continue; } pe.reps.push_back(r); }   // an ARM source the interpreter cannot read is a limit of the harness, not a divergence
+    for (auto& r : pe.reps) for (int v : p.views) { rs.push_back(execute_plan(plan, reps, r, v, verbose, focus, false)); tags.push_back(r + (v ? "/C++" : "/C")); }
+    RunResult out = rs[0]; out.counters["arm_interpreter_unavailable_executions_skipped"] += arm_skipped;
     {
         // a violation that shows on every execution alike belongs to its own property; one that shows on some executions
         // only (or differently) is a divergence between replicas / views
@@ -199,9 +212,9 @@ static RunResult run_fixed(const Plan& plan, Replicas& reps, const std::string& 
     }
     for (size_t i = 1; i < rs.size(); i++) {
         if (rs[i].fingerprint != rs[0].fingerprint) {
-            RunResult a = execute_plan(plan, reps, p.reps[0], p.views[0], true, focus, false);
+            RunResult a = execute_plan(plan, reps, pe.reps[0], p.views[0], true, focus, false);
             size_t ri = mode == "crossrep" ? i : 0, vi = mode == "crossrep" ? 0 : i;
-            RunResult b = execute_plan(plan, reps, p.reps[ri], p.views[vi], true, focus, false);
+            RunResult b = execute_plan(plan, reps, pe.reps[ri], p.views[vi], true, focus, false);
             out.violated = true;
             out.v.prop = mode == "crossrep" ? "C03" : "C19";
             out.v.oracle = mode == "crossrep" ? "replica-divergence" : "view-divergence";
@@ -424,7 +437,7 @@ int run_replay(const std::string& path, bool verbose) {
     if (j->gets("flavour") != flavour()) { fprintf(stderr, "replay file is for flavour %s, this binary is %s\n", j->gets("flavour").c_str(), flavour().c_str()); return 3; }
     Plan plan; if (!Plan::from_json(*j->get("plan"), plan)) { fprintf(stderr, "bad plan\n"); return 2; }
     UnitPick p; for (auto& r : j->get("replicas")->a) p.reps.push_back(r->s); for (auto& v : j->get("views")->a) p.views.push_back((int) v->inum);
-    Replicas reps; std::string err; if (!reps.load(replica_dir(), err)) { fprintf(stderr, "replica load failed: %s\n", err.c_str()); return 2; }
+    Replicas reps; std::string err; if (!load_all(reps, err)) { fprintf(stderr, "replica load failed: %s\n", err.c_str()); return 2; }
     std::string focus = j->gets("property");
     std::vector<PreUnit> prelude;
     if (auto pj = j->get("prelude")) for (auto& e : pj->a) { PreUnit pu; Plan::from_json(*e->get("plan"), pu.plan); pu.mode = e->gets("mode"); for (auto& r : e->get("replicas")->a) pu.pick.reps.push_back(r->s); for (auto& v : e->get("views")->a) pu.pick.views.push_back((int) v->inum); prelude.push_back(pu); }
@@ -510,6 +523,7 @@ static void write_evidence(CheckState& st, double wall, int nviol, const std::ve
     cov->set("real_code", "every line of /repo/include and /repo/src, rebuilt from the working tree into replicas A (x86-64 asm, run-time dispatch; loaded twice: BMI2/ADX and baseline), As (-mbmi2 -madx static dispatch), B (-DDISABLE_ASM, 64-bit words), C (-DDISABLE_ASM, 32-bit words), G (the asm configuration built with g++; plain flavour only), each together with the verification adapter");
     cov->set("stubs", "caller's random source (seeded stream with scripted faults), caller's hash function, store/transport of marshalled bytes, the Go wrapper's allocate-then-unmarshal protocol (re-implemented from lang/go), OS scheduler (serialising seeded scheduler), libc entry points (trapped)");
     cov->set("not_covered", "AArch64 and ARMv6-M assembly back ends cannot be executed in this sandbox (4 of 6 configurations run); no Go toolchain");
+    if (!g_arm_note.empty()) cov->set("interpreted_arm_back_ends", g_arm_note + "the assembly source text of /repo/src/core/arch/{aarch64,armv6_m} runs under the simulator's own interpreter (macro expansion, instruction semantics, flags, bounds-checked guest memory, calling-convention checks); they take part in the cross-replica batches of scenario prim only");
     for (auto& kv : st.extra->o) cov->set(kv.first, kv.second);
     if (!known_lines.empty()) { auto ka = Json::arr(); for (auto& k : known_lines) ka->push(Json::str(k)); cov->set("known_findings_reported", ka); }
     j->set("coverage", cov);
@@ -525,7 +539,7 @@ int run_check(const std::string& prop, const std::string& tier, uint64_t seed, i
     double t0 = now_s();
     CheckSpec spec; std::string err;
     if (!build_check(prop, tier, spec, err)) { fprintf(stderr, "jsim: %s\n", err.c_str()); return 2; }
-    Replicas reps; if (!reps.load(replica_dir(), err)) { fprintf(stderr, "jsim: replica load failed: %s\n", err.c_str()); return 2; }
+    Replicas reps; if (!load_all(reps, err)) { fprintf(stderr, "jsim: replica load failed: %s\n", err.c_str()); return 2; }
     CheckState st; st.spec = &spec; st.reps = &reps; st.seed = seed;
     printf("jsim check %s tier=%s seed=%llu flavour=%s workers=%d replicas=%s\n", prop.c_str(), tier.c_str(), (unsigned long long) seed, flavour().c_str(), workers, replica_dir().c_str());
     fflush(stdout);
@@ -669,7 +683,7 @@ int run_check(const std::string& prop, const std::string& tier, uint64_t seed, i
 
 // debug aid: execute the same plan twice in this process and show the first differing log line
 int run_twice(const std::string& scenario, uint64_t seed, const std::string& rep, int view) {
-    Replicas reps; std::string err; if (!reps.load(replica_dir(), err)) { fprintf(stderr, "replica load failed: %s\n", err.c_str()); return 2; }
+    Replicas reps; std::string err; if (!load_all(reps, err)) { fprintf(stderr, "replica load failed: %s\n", err.c_str()); return 2; }
     Scenario* sc = find_scenario(scenario); if (!sc) return 2;
     Plan plan = sc->generate(seed, g_cli_knobs); plan.scenario = scenario;
     RunResult a = execute_plan(plan, reps, rep, view, true, "", false), b = execute_plan(plan, reps, rep, view, true, "", false);
@@ -678,7 +692,7 @@ int run_twice(const std::string& scenario, uint64_t seed, const std::string& rep
 }
 
 int run_one(const std::string& scenario, uint64_t seed, const std::string& rep, int view, bool verbose) {
-    Replicas reps; std::string err; if (!reps.load(replica_dir(), err)) { fprintf(stderr, "replica load failed: %s\n", err.c_str()); return 2; }
+    Replicas reps; std::string err; if (!load_all(reps, err)) { fprintf(stderr, "replica load failed: %s\n", err.c_str()); return 2; }
     Scenario* sc = find_scenario(scenario); if (!sc) { fprintf(stderr, "no scenario %s\n", scenario.c_str()); return 2; }
     Plan plan = sc->generate(seed, g_cli_knobs); plan.scenario = scenario;
     for (auto& op : plan.ops) if (verbose) printf("  op: %s\n", op.str().substr(0, 300).c_str());
@@ -692,7 +706,7 @@ int run_one(const std::string& scenario, uint64_t seed, const std::string& rep, 
 // Determinism gate: every scenario, many seeds, each executed twice in separate
 // processes and once in-process after other runs; fingerprints must agree.
 int run_selftest(uint64_t seed, int n) {
-    Replicas reps; std::string err; if (!reps.load(replica_dir(), err)) { fprintf(stderr, "replica load failed: %s\n", err.c_str()); return 2; }
+    Replicas reps; std::string err; if (!load_all(reps, err)) { fprintf(stderr, "replica load failed: %s\n", err.c_str()); return 2; }
     int bad = 0; uint64_t total = 0;
     for (auto sc : registry()) {
         for (int i = 0; i < n; i++) {
